@@ -48,7 +48,7 @@ def check_geometry(ctx):
         for K in ((Ks[:3] if ctx.tier == "quick" else Ks) if takesK else [None]):
             for d in ds:
                 try:
-                    explored = list(A.explore(lambda o: PS.run_steps(model, pcls, K, d, True, o, True)))
+                    explored = PS.explore_budgeted(model, pcls, K, d, True, True)
                 except A.Unsupported as ex:
                     bad.setdefault("obligation not discharged: make_children cannot be interpreted (%s)" % ex, []).append("K=%s d=%d" % (K, d))
                     continue
@@ -141,12 +141,33 @@ class CoordTaint:
                     v = self.val(n.value)
                     for t in n.targets:
                         ch |= self.bind(t, v)
-                elif isinstance(n, ast.For):
-                    ch |= self.bind(n.target, self.elem(self.val(n.iter), "<each:%s>" % norm_src(n.target)))
-                elif isinstance(n, ast.comprehension):
-                    ch |= self.bind(n.target, self.elem(self.val(n.iter), "<each:%s>" % norm_src(n.target)))
+                elif isinstance(n, (ast.For, ast.comprehension)):
+                    ch |= self.bind_iter(n.target, n.iter)
             if not ch:
                 break
+
+    def bind_iter(self, target, it):
+        """for <target> in <it>: element typing through enumerate / zip / tuple-unpacking of intervals."""
+        axis = "<each:%s>" % norm_src(target)
+        if isinstance(it, ast.Call) and isinstance(it.func, ast.Name) and it.func.id == "enumerate" and it.args and \
+                isinstance(target, (ast.Tuple, ast.List)) and len(target.elts) == 2:
+            return self.bind_elem(target.elts[1], self.elem(self.val(it.args[0]), norm_src(target.elts[0])))
+        if isinstance(it, ast.Call) and isinstance(it.func, ast.Name) and it.func.id == "zip" and isinstance(target, (ast.Tuple, ast.List)) and \
+                len(target.elts) == len(it.args):
+            ch = False
+            for t, a in zip(target.elts, it.args):
+                ch |= self.bind_elem(t, self.elem(self.val(a), axis))
+            return ch
+        return self.bind_elem(target, self.elem(self.val(it), axis))
+
+    def bind_elem(self, t, v):
+        """bind a loop target to an element value; a tuple target unpacks an interval into its two coordinates."""
+        if isinstance(t, (ast.Tuple, ast.List)) and v is not None and v[0] == 1:
+            ch = False
+            for x in t.elts:
+                ch |= self.bind(x, (0, v[1], "c"))
+            return ch
+        return self.bind(t, v)
 
     def bind(self, t, v):
         if isinstance(t, ast.Name):
@@ -254,6 +275,8 @@ def allowed_use(model, T, n, v, par, in_exception):
         m = method_name(par)
         if name == "len" or m in PASS_THROUGH_CALLS or name in ("copy.deepcopy", "copy.copy"):
             return True, ""
+        if name in ("enumerate", "zip", "reversed", "list", "tuple", "iter") and lvl >= 1:
+            return True, ""       # iteration / copying of a box or point: the elements are typed and judged where they are used
         if name in ("np.random.uniform", "numpy.random.uniform") and lvl == 0:
             others = [T.val(a) for a in par.args]
             if all(o is not None and o[0] == 0 and o[1] == axis for o in others):
